@@ -1323,6 +1323,48 @@ fn main() {
             }
             // framedec <amqp|sasl> <doff> <type> <len>: the real frame decoder on a frame of <len> bytes (size field
             //   already stripped) starting with doff, type, two channel bytes and then a described-list prefix
+            // noncompact_transfer: transfer frames whose performative is encoded in spec-valid but non-compact forms
+            //   (explicit trailing more=false; uint as 0x70, vbin32 tag, 0x56 booleans in a list32), followed by a
+            //   known payload, through the real FrameDecoder: the payload must come back byte for byte.
+            "noncompact_transfer" => {
+                use bytes::BytesMut;
+                use fe2o3_amqp::frames::amqp::FrameBody;
+                use tokio_util::codec::Decoder;
+                let payload: Vec<u8> = (0u8..23).map(|i| i.wrapping_mul(7).wrapping_add(3)).collect();
+                let perfs: Vec<Vec<u8>> = vec![
+                    // compact: list8 { handle=0 (0x43), id=0 (0x43), tag=a0 01 09, format=0 (0x43) }
+                    vec![0x00, 0x53, 0x14, 0xc0, 0x07, 0x04, 0x43, 0x43, 0xa0, 0x01, 0x09, 0x43],
+                    // + settled=false, more=false written out
+                    vec![0x00, 0x53, 0x14, 0xc0, 0x09, 0x06, 0x43, 0x43, 0xa0, 0x01, 0x09, 0x43, 0x42, 0x42],
+                    // list32, uint as 0x70, vbin32 tag, 0x56 booleans
+                    vec![0x00, 0x53, 0x14, 0xd0, 0x00, 0x00, 0x00, 0x1d, 0x00, 0x00, 0x00, 0x06, 0x70, 0, 0, 0, 0, 0x70, 0, 0, 0, 0, 0xb0, 0, 0, 0, 1, 9, 0x70, 0, 0, 0, 0, 0x56, 0, 0x56, 0],
+                    // descriptor as symbol
+                    {
+                        let mut v = vec![0x00, 0xa3, 18];
+                        v.extend_from_slice(b"amqp:transfer:list");
+                        v.extend_from_slice(&[0xc0, 0x07, 0x04, 0x43, 0x43, 0xa0, 0x01, 0x09, 0x43]);
+                        v
+                    },
+                ];
+                let mut intact = true;
+                let mut which = Vec::new();
+                for (k, perf) in perfs.iter().enumerate() {
+                    let mut bytes: Vec<u8> = vec![2, 0, 0, 1];
+                    bytes.extend_from_slice(perf);
+                    bytes.extend_from_slice(&payload);
+                    let mut src = BytesMut::from(&bytes[..]);
+                    let mut dec = fe2o3_amqp::frames::amqp::FrameDecoder {};
+                    let ok = match dec.decode(&mut src) {
+                        Ok(Some(f)) => matches!(&f.body, FrameBody::Transfer { payload: p, .. } if p[..] == payload[..]),
+                        _ => false,
+                    };
+                    if !ok {
+                        intact = false;
+                        which.push(k);
+                    }
+                }
+                format!("{{\"payload_intact\":{},\"failed_encodings\":{:?}}}", intact, which)
+            }
             "framedec" => {
                 use bytes::BytesMut;
                 use tokio_util::codec::Decoder;
